@@ -420,7 +420,10 @@ def m5_verify_before_serve(run):
                 bad.append((f, c))
     run.count("M5.load/parse_and_check_signature call sites", n)
     for f, c in bad:
-        run.violated("M5", "%s::%s-result-discarded" % (f.qual, norm_text(c)),
+        # (the key names the call, not the local the source is held in)
+        ktxt = "_md.load()" if call_name(c) == "load" and \
+            isinstance(c.func.value, ast.Name) else norm_text(c)
+        run.violated("M5", "%s::%s-result-discarded" % (f.qual, ktxt),
                      "parse_and_check_signature stores the entities before it "
                      "verifies and reports failure only through its return "
                      "value; this caller discards it, so with a backend that "
